@@ -356,6 +356,10 @@ func c12(c *an.Ctx) {
 	c.Check("R-SHAPE", "checkFilterAgainstLimit is total: missing and different fail inside the loop over the whole limit; nil only after the loop", 4, func(o *an.O) {
 		totalRule(o, "(*DB).checkFilterAgainstLimit")
 	})
+	c.Check("R-BOOL", "limit decision tables: a wrapper returns an error exactly when the shard limit is violated, or the dynamic limit (both callbacks set, non-nil filter) is violated and ShouldContinueOnError says no; a per-limit check fails for every limit entry that is missing or different and only then", 6, func(o *an.O) {
+		ruleLimitTables(c, o)
+	})
+
 	c.Check("R-SHAPE", "checkColumnValuesAgainstLimit is total: missing and different fail inside the loop over the whole limit; nil only after the loop", 4, func(o *an.O) {
 		totalRule(o, "(*DB).checkColumnValuesAgainstLimit")
 		// the value compared is values[i] of the column whose name matched (same index)
